@@ -19,8 +19,9 @@ RULE = ("A case is a call history given as data: {start: flat|tree, profile: all
         "violating call. Parts: 'random' (Hypothesis lists of 40/80 calls, arguments valid and invalid, weighted towards removals, "
         "re-attachments and region removal/replacement while referenced), 'random_clean' (same generator; calls whose argument class, "
         "computed on the abstract model, is the trigger of a reported defect are skipped like a state-machine precondition, so that "
-        "histories run to full length), 'exhaustive' (all sequences of 2/3 calls over a fixed alphabet of calls, from both start "
-        "states; shorter sequences are their prefixes). evaluations = calls executed and judged; non-trivial = history in which an "
+        "histories run to full length), 'exhaustive' (all sequences of 2/3 calls over a fixed alphabet of %d calls, from both start "
+        "states; shorter sequences are their prefixes). Every call runs under a 0.5 s CPU-time watchdog (a call that does not return "
+        "is a failure, bucket hang:*). evaluations = calls executed and judged; non-trivial = history in which an "
         "element accepted-removed from a parent (or detached from a document) is later accepted under another parent (in another "
         "document), or a region is removed or replaced while referenced; distinct by case hash.")
 ASSUMPTIONS = [
@@ -168,6 +169,8 @@ ALPHABET = [
   ("copy_to", "d1.p1", "d1.text1"),
 ]
 
+RULE = RULE % len(ALPHABET)
+
 # ------------------------------------------------------------------------------------------------ validation of cases
 
 _ARITY = {"push_child": 3, "push_children": 4, "remove": 2, "remove_child": 3, "remove_children": 2, "set_doc": 3, "set_region": 3,
@@ -249,6 +252,21 @@ def _prefix_states(m, op):
   return out
 
 
+def _cap_memory(limit=6 << 30):
+  """safety net for the processes that run this check only: a ttconv call that allocates without end (finding M-9 used 58 GB before
+  the watchdog existed) must die with a MemoryError in its own process instead of exhausting the machine"""
+  try:
+    import resource
+    soft, hard = resource.getrlimit(resource.RLIMIT_AS)
+    if soft == resource.RLIM_INFINITY or soft > limit:
+      resource.setrlimit(resource.RLIMIT_AS, (limit, hard))
+  except Exception:  # pylint: disable=broad-except
+    pass
+
+
+_cap_memory()
+
+
 class _Watchdog(BaseException):
   """raised inside a ttconv call that has used more CPU time than any call on a 67-object universe can need"""
 
@@ -317,7 +335,6 @@ def check(case, res):
     if res.fails:
       return
   for i, op in enumerate(ops):
-    in_prelude = False
     lab, feat = mu.describe(m, op)
     key = lab + "-" + feat
     if profile == "clean" and key in AVOID:
@@ -334,10 +351,9 @@ def check(case, res):
       violated = True
       u = None
       break
-    if not in_prelude:
-      res.evals += 1
-      executed += 1
-      stats["call:%s:%s" % (key, "accepted" if accepted else "rejected")] += 1
+    res.evals += 1
+    executed += 1
+    stats["call:%s:%s" % (key, "accepted" if accepted else "rejected")] += 1
     where = "call %d %r (%s, %s)" % (i, op, key, "accepted" if accepted else "rejected")
     problems = mu.walk(u)
     if problems:
@@ -387,8 +403,6 @@ def check(case, res):
     if accepted and key == "put_region-replace-referenced":
       nt.add("nt:region-replaced-while-referenced")
     m = exp
-  else:
-    pass
   # an accepted removal or replacement of a referenced region is non-trivial even when that very call is the violating one
   if violated:
     if key.startswith("remove_region-referenced") and accepted:
